@@ -113,10 +113,44 @@ def run(tier, seed):
         "samples": ce.sample_of(nested[0]),
         "recovery_writes_by_kind": kinds,
     }
+    # opening WITHOUT writing: the read-only recovery (what an offline migration reads) of a crash image of a
+    # legacy device must report the contents the read-write recovery of the same image reports (MigFaithful,
+    # TraceMigration.tla) - journals are masked there, not replayed
+    from checks import c15
+    mjobs = [("ro%d" % i, ["--seed", str(rng.randrange(1 << 30)), "--synth", "0", "--workloads", "1" if tier == "quick" else "2",
+                           "--crashimgs", str(10 if tier == "quick" else 24), "--steps", str(rng.choice([30, 45, 60])),
+                           "--blocks", str(rng.choice([48, 56])), "--threads", "4"])
+             for i in range(4 if tier == "quick" else 20)]
+    ro_cases = 0
+    for x in c15.run_jobs(fxv, rd, mjobs):
+        if x["rc"] != 0:
+            if x["rc"] == 3 or v.panic_in_code_under_test(x["stderr"]):
+                pth = v.save_replay("c04", x["tag"] + ".args.json", {"args": x["args"], "stderr": x["stderr"]})
+                viol.append({"what": "read-only recovery panicked or hung: " + x["stderr"][-300:], "replay": pth, "key": "ro panic"})
+                continue
+            raise v.ToolError("fxv migrate failed rc=%s %s" % (x["rc"], x["stderr"][-500:]))
+        r = c15.validate(rd, x["trace"], ["MigFaithful"])
+        ro_cases += x["info"].get("cases", 0)
+        if r.violation and r.violation.startswith("invariant"):
+            inv, what = c15.describe(r, x["trace"])
+            keep = v.save_replay("c04", "ro_" + os.path.basename(x["trace"]), open(x["trace"]).read())
+            viol.append({"what": "read-only and read-write recovery of one image disagree: " + what, "replay": keep, "key": "ro " + inv})
+        elif r.violation:
+            raise v.ToolError("TraceMigration(%s): %s" % (x["tag"], r.violation))
+        else:
+            v.tlc_ok(r, "TraceMigration(%s)" % x["tag"])
+    cov["read_only_recovery_cases"] = ro_cases
     return {"level": "model_checking", "coverage": cov, "violations": viol,
             "assumptions": ["virtual clock held fixed across the nested recoveries",
                             "nesting depth 2 (recovery of a crashed recovery)"]}
 
 
 def replay(path):
+    if os.path.basename(path).startswith("ro_"):
+        from checks import c15
+        r = c15.validate(v.run_dir("c04_replay"), path, ["MigFaithful"])
+        if r.violation:
+            print("VIOLATION property=C04 replay=%s" % path)
+            return 1
+        return 0
     return ce.replay(PROP, path, INV)
